@@ -170,6 +170,10 @@ class IncomingBallsHandler(BallDeviceStateHandler):
                 self.ball_device.log.warning("Incoming ball from %s timeouted.", incoming_ball.source)
                 self._incoming_balls.remove(incoming_ball)
 
+            if timeouts:
+                # a source may wait in wait_for_ready_to_receive for one of these slots. let it check again.
+                self.ball_device.ball_count_handler.incoming_balls_changed()
+
             for incoming_ball in timeouts:
                 await self.ball_device.lost_incoming_ball(source=incoming_ball.source)
 
